@@ -273,7 +273,7 @@ class MaskCombinator(Generic[R], GenerativeFunction[Mask[R]]):
         score, retval = self.gen_fn.assess(sample, inner_args)
         return (
             check * score,
-            Mask(retval, check),
+            Mask.build(retval, check),
         )
 
 
